@@ -129,6 +129,22 @@ Setups == <<
       [NoReq EXCEPT !.puts = <<SeqPut(Ka, <<1, 1>>), [PlainPut(Kb, 3, NoExp) EXCEPT !.sess = 0,
                                   !.idx = <<IE(Ni, Kb)>>]>>] >>
 >>
+\* ... and shards that hold a record written by a plain put whose key looks like a sequence key of prefix "a"
+\* but whose suffix parts are not clean 20-digit numbers: non-digit tail, too few digits, 21 digits, an empty
+\* part, a part without a leading digit, a part above 2^64-1.  (The generator reads the parts of the highest
+\* key below "a-<max>" with Sscanf "%020d".)  From these only sequence puts on "a" are offered.
+D(dg) == 48 + dg
+LookAlikes == {
+   Ka \o <<DASH, D(1), D(2), 120>>,                                                \* "a-12x"
+   Ka \o <<DASH, D(7)>>,                                                           \* "a-7"
+   Ka \o <<DASH, D(1)>> \o [i \in 1..20 |-> D(0)],                                  \* "a-1" + 20 zeros (21 digits)
+   Ka \o <<DASH, DASH, D(5)>>,                                                     \* "a--5"
+   Ka \o <<DASH>> \o Pad20(7) \o <<DASH, 118, D(2)>>,                               \* "a-00000000000000000007-v2"
+   Ka \o <<DASH>> \o Pad20(1) \o <<DASH>> \o [i \in 1..20 |-> D(9)] }                \* second part = 20 nines
+LookSetups == [i \in 1..Cardinality(LookAlikes) |->
+                 <<[NoReq EXCEPT !.puts = <<PlainPut(SortKeys(LookAlikes)[i], 1, NoExp)>>]>>]
+HasLookAlike == DOMAIN st.kv \cap LookAlikes # {}
+C13Seq == {[SeqPut(Ka, d) EXCEPT !.pkey = pk] : d \in {<<1>>, <<2, 1>>, <<1, 1, 1>>, <<0>>}, pk \in BOOLEAN}
 C13KeyClasses == {<<>>, Ka, Kab, Kox}
 C13Deltas == {<<>>, <<0>>, <<0, 1>>, <<1>>, <<1, 1>>, <<1, 1, 1>>}
 C13Sess == {NoSess, 0, 7}            \* none / live in the third set-up, dead otherwise / dead
@@ -162,7 +178,7 @@ Requests ==
       [] Mode = "c12big" -> ReqsOver(BigP, BigD, BigR, MaxOps)
       [] Mode = "c16" -> {r \in ReqsOver(C16P, C16D, C16R, MaxOps) : ~SeqStateError(st, Stamp(r))}
       [] Mode = "c15" -> ReqsOver(C15P, C15D, C15R, MaxOps)
-      [] Mode = "c13" -> ReqsOver(C13P, C13D, C13R, MaxOps)
+      [] Mode = "c13" -> IF HasLookAlike THEN ReqsOver(C13Seq, {}, {}, 1) ELSE ReqsOver(C13P, C13D, C13R, MaxOps)
       [] Mode = "c06" -> {r \in ReqsOver(C06P, C06D, C06R, MaxOps) : ~SeqStateError(st, Stamp(r))}
                          \cup {[NoReq EXCEPT !.puts = <<PlainPut(SessKey(n), -1, NoExp)>>]}
       [] Mode = "c06big" -> ReqsOver(C06P \cup BigP, C06D \cup BigD, C06BigR, 1)
@@ -207,7 +223,7 @@ DoWrite(r) ==
                  /\ st' = s1 /\ n' = n + 1
 
 \* behaviours start with one of the set-up prefixes of the mode, executed as ordinary writes
-InitSetups == CASE Mode = "c13" -> Setups [] Mode = "c12p" -> SetupsP [] Mode = "c12big" -> SetupsBig [] Mode \in {"c06", "c06big"} -> C06Setups
+InitSetups == CASE Mode = "c13" -> Setups \o LookSetups [] Mode = "c12p" -> SetupsP [] Mode = "c12big" -> SetupsBig [] Mode \in {"c06", "c06big"} -> C06Setups
                 [] OTHER -> << <<>> >>
 RECURSIVE RunSetup(_, _, _, _)
 RunSetup(s, i, reqs, h) ==
